@@ -39,7 +39,16 @@ def main():
                 if text.count(m["old"]) != 1:
                     summary.append((pid, m["name"], "PATCH-DOES-NOT-APPLY(%d)" % text.count(m["old"]), 0))
                     continue
-                open(path, "w").write(text.replace(m["old"], m["new"]))
+                text = text.replace(m["old"], m["new"])
+                bad = False
+                for o, n in m.get("pre", []):
+                    if text.count(o) != 1:
+                        bad = True
+                    text = text.replace(o, n)
+                if bad:
+                    summary.append((pid, m["name"], "PRE-PATCH-DOES-NOT-APPLY", 0))
+                    continue
+                open(path, "w").write(text)
                 env = dict(os.environ, VF_ANYIO_SRC=src, VERIF_SCALE=scale, VERIF_SHRINK_S="0",
                            VF_NO_EVIDENCE="1")
                 t = time.time()
